@@ -227,7 +227,8 @@ pub(crate) mod verif_support {
         pub static mut LOG_DATA_FP: [u64; 16] = [0; 16];
         pub fn fingerprint(v: &Value) -> u64 {
             match v {
-                Value::Number(n) => n.as_u64().unwrap_or(u64::MAX - 3),
+                // (0.0 and -0.0 are the falsy spellings of outcome payload 0: same fingerprint as the integer 0)
+                Value::Number(n) => n.as_u64().unwrap_or(if n.as_f64() == Some(0.0) { 0 } else { u64::MAX - 3 }),
                 Value::Null => u64::MAX - 1,
                 // strings: a tag plus the first four bytes (enough to tell one-character strings apart)
                 Value::String(s) => {
